@@ -55,8 +55,11 @@ type site struct {
 	occ                 int
 }
 
+// key identifies a site by function, kind and expression text. Occurrences of the same
+// expression in the same function share one key (their number is emitted as `count`), so that
+// moved or repeated code does not change the key list; a new, changed or removed expression does.
 func (s site) key() string {
-	return fmt.Sprintf("%s.%s|%s|%s#%d", s.pkg, s.fn, s.kind, s.expr, s.occ)
+	return fmt.Sprintf("%s.%s|%s|%s", s.pkg, s.fn, s.kind, s.expr)
 }
 
 type fakeImporter struct{ pkgs map[string]*types.Package }
@@ -346,11 +349,21 @@ func main() {
 	}
 	// two validatable accessors that are not single expressions are noted as problems, never skipped
 	sort.SliceStable(sites, func(i, j int) bool { return sites[i].key() < sites[j].key() })
+	counts := map[string]int{}
+	var uniq []site
+	for _, s := range sites {
+		if counts[s.key()] == 0 {
+			uniq = append(uniq, s)
+		}
+		counts[s.key()]++
+	}
+	nAll := len(sites)
+	sites = uniq
 
 	var b strings.Builder
 	b.WriteString("/- GENERATED by translate/panicsites from /repo — do not edit, not committed. -/\n")
 	b.WriteString("namespace NA.Gen.PanicSites\n\n")
-	b.WriteString("structure Site where\n  key : String\n  pkg : String\n  fn : String\n  kind : String\n  expr : String\n  hash : String\n  deriving Repr\n\n")
+	b.WriteString("structure Site where\n  key : String\n  pkg : String\n  fn : String\n  kind : String\n  expr : String\n  hash : String\n  count : Nat\n  deriving Repr\n\n")
 	b.WriteString("def sites : List Site := [\n")
 	for i, s := range sites {
 		h := sha256.Sum256([]byte(s.key()))
@@ -358,8 +371,8 @@ func main() {
 		if i == len(sites)-1 {
 			sep = ""
 		}
-		fmt.Fprintf(&b, "  ⟨%s, %s, %s, %s, %s, %s⟩%s\n", leanStr(s.key()), leanStr(s.pkg), leanStr(s.fn), leanStr(s.kind),
-			leanStr(s.expr), leanStr(hex.EncodeToString(h[:6])), sep)
+		fmt.Fprintf(&b, "  ⟨%s, %s, %s, %s, %s, %s, %d⟩%s\n", leanStr(s.key()), leanStr(s.pkg), leanStr(s.fn), leanStr(s.kind),
+			leanStr(s.expr), leanStr(hex.EncodeToString(h[:6])), counts[s.key()], sep)
 	}
 	b.WriteString("]\n\n")
 	b.WriteString("def problems : List String := [")
@@ -426,5 +439,5 @@ func main() {
 	if len(problems) > 0 {
 		fmt.Fprintln(os.Stderr, "panicsites: problems:", strings.Join(problems, "; "))
 	}
-	fmt.Fprintf(os.Stderr, "panicsites: %d sites, %d tables\n", len(sites), len(tables))
+	fmt.Fprintf(os.Stderr, "panicsites: %d sites (%d distinct keys), %d tables\n", nAll, len(sites), len(tables))
 }
